@@ -43,20 +43,22 @@ Proof.
   rewrite Eabs. rewrite sqrt_Rsqr by lra. apply Rgt_not_eq. apply sin_gt_0; lra.
 Qed.
 
-Theorem se3_log_inverse_generic tx ty tz x y z w : n4 x y z w = 1 -> eps < x * x + y * y + z * z -> w <> 0 ->
-  se3_log RS eps (se3_inverse RS [tx; ty; tz; x; y; z; w]) = @vneg RS (se3_log RS eps [tx; ty; tz; x; y; z; w]).
+(* the block fact shared by SE3, SE_2(3): V^-1(-w) (-(R(conj q) t)) = -(V^-1(w) t) for w = log q *)
+Lemma ljacinv_conj_block x y z w a b c tx ty tz : n4 x y z w = 1 -> eps < x * x + y * y + z * z -> w <> 0 ->
+  so3_log RS eps [x; y; z; w] = [a; b; c] ->
+  @mvmul RS (so3_ljacinv RS eps [- a; - b; - c]) (@vneg RS (@mvmul RS (so3_rotation RS [- x; - y; - z; w]) [tx; ty; tz])) =
+  @vneg RS (@mvmul RS (so3_ljacinv RS eps [a; b; c]) [tx; ty; tz]).
 Proof.
-  intros Hn Hs2 Hw. destruct (so3_log_round eps eps_pos x y z w Hn Hs2 Hw) as (a & b & c & Hl & Hbig & HJ & He). cbn [K RS] in *.
-  pose proof (log_sin_ne x y z w Hn Hs2 Hw a b c Hl) as HS.
-  unfold se3_inverse, se3_q, se3_t. cbn [vslice skipn firstn]. rewrite so3_inverse_eq. unfold so3_act. rewrite rotation_conj.
+  intros Hn Hs2 Hw Hl0. destruct (so3_log_round eps eps_pos x y z w Hn Hs2 Hw) as (a' & b' & c' & Hl & Hbig & HJ & He). cbn [K RS] in *.
+  rewrite Hl0 in Hl. injection Hl as <- <- <-.
+  pose proof (log_sin_ne x y z w Hn Hs2 Hw a b c Hl0) as HS.
+  rewrite rotation_conj.
   assert (ER : so3_rotation RS [x; y; z; w] = poly3 a b c (sin (sqrt (a * a + b * b + c * c)) / sqrt (a * a + b * b + c * c)) ((1 - cos (sqrt (a * a + b * b + c * c))) / (a * a + b * b + c * c))).
   { rewrite <- (so3_exp_rodrigues eps eps_pos a b c Hbig). rewrite He. destruct (Rlt_dec w 0); [|reflexivity]. unfold so3_rotation. symmetry. apply quat_matrix_neg. }
   rewrite ER, mT_poly3.
   match goal with |- context [@mvmul RS ?R0 [tx; ty; tz]] => set (R' := R0) end.
   assert (HR : exists a1 a2 a3 a4 a5 a6 a7 a8 a9, R' = [[a1; a2; a3]; [a4; a5; a6]; [a7; a8; a9]]) by (unfold R', poly3; mat_unfold; do 9 eexists; reflexivity).
-  destruct (mvmul3_shape R' [tx; ty; tz] HR) as (r0 & r1 & r2 & Er). cbn [K RS] in *. unfold Mat.vec in *. cbn [K RS] in *. rewrite Er. cbn [vneg map]. cbn [K RS kopp].
-  unfold se3_log, se3_q, se3_t. cbn [app vslice skipn firstn]. cbn [K RS].
-  rewrite (so3_log_conj eps x y z w), Hl. change (@vneg RS [a; b; c]) with [- a; - b; - c].
+  destruct (mvmul3_shape R' [tx; ty; tz] HR) as (r0 & r1 & r2 & Er). cbn [K RS] in *. unfold Mat.vec in *. cbn [K RS] in *. rewrite Er.
   assert (Hnegbig : eps < - a * - a + - b * - b + - c * - c) by (replace (- a * - a + - b * - b + - c * - c) with (a * a + b * b + c * c) by ring; exact Hbig).
   rewrite (so3_ljacinv_poly eps (- a) (- b) (- c) Hnegbig), (so3_ljacinv_poly eps a b c Hbig). cbv zeta.
   replace (- a * - a + - b * - b + - c * - c) with (a * a + b * b + c * c) by ring. rewrite poly3_negv.
@@ -65,17 +67,30 @@ Proof.
   assert (Hsc : sin th * sin th + cos th * cos th = 1) by (replace (sin th * sin th + cos th * cos th) with ((sin th)² + (cos th)²) by (unfold Rsqr; ring); apply sin2_cos2).
   destruct (sym_coeff_identities th (sin th) (cos th) ltac:(lra) HS Hsc) as [E1 E2]. cbv zeta in E1, E2. rewrite Hsq in E1, E2.
   set (bp := 1 / th2 - (1 + cos th) / (2 * th * sin th)) in *.
-  (* M' (-(R' t)) = -((M' R') t) and M' R' = ljacinv(w) *)
   set (M' := poly3 a b c (- - (1 / 2)) bp).
   assert (HM : exists a1 a2 a3 a4 a5 a6 a7 a8 a9, M' = [[a1; a2; a3]; [a4; a5; a6]; [a7; a8; a9]]) by (unfold M', poly3; mat_unfold; do 9 eexists; reflexivity).
   assert (EP : @mmul RS M' R' = poly3 a b c (- (1 / 2)) bp).
   { unfold M', R'. rewrite poly3_mul. fold th2. f_equal.
     - replace (- - (1 / 2)) with (1 / 2) by ring. exact E1.
     - replace (- - (1 / 2)) with (1 / 2) by ring. exact E2. }
-  change [- r0; - r1; - r2] with (@vneg RS [r0; r1; r2]). rewrite mvmul_neg3 by (first [exact HM | do 3 eexists; reflexivity]). rewrite <- Er.
-  rewrite mvmul_mmul3 by (first [exact HM | exact HR | do 3 eexists; reflexivity]). rewrite EP.
-  destruct (mvmul3_shape (poly3 a b c (- (1 / 2)) bp) [tx; ty; tz]) as (p0 & p1 & p2 & Ep); [unfold poly3; mat_unfold; do 9 eexists; reflexivity|].
-  rewrite Ep. reflexivity.
+  rewrite mvmul_neg3 by (first [exact HM | do 3 eexists; reflexivity]). rewrite <- Er.
+  rewrite mvmul_mmul3 by (first [exact HM | exact HR | do 3 eexists; reflexivity]). rewrite EP. reflexivity.
+Qed.
+
+Theorem se3_log_inverse_generic tx ty tz x y z w : n4 x y z w = 1 -> eps < x * x + y * y + z * z -> w <> 0 ->
+  se3_log RS eps (se3_inverse RS [tx; ty; tz; x; y; z; w]) = @vneg RS (se3_log RS eps [tx; ty; tz; x; y; z; w]).
+Proof.
+  intros Hn Hs2 Hw. destruct (so3_log_round eps eps_pos x y z w Hn Hs2 Hw) as (a & b & c & Hl & Hbig & _ & _). cbn [K RS] in *.
+  pose proof (ljacinv_conj_block x y z w a b c tx ty tz Hn Hs2 Hw Hl) as EB.
+  unfold se3_inverse, se3_q, se3_t. cbn [vslice skipn firstn]. rewrite so3_inverse_eq. unfold so3_act.
+  destruct (mvmul3_shape (so3_rotation RS [- x; - y; - z; w]) [tx; ty; tz]) as (r0 & r1 & r2 & Er).
+  { unfold so3_rotation, quat_matrix. mat_unfold. do 9 eexists. reflexivity. }
+  cbn [K RS] in *. unfold Mat.vec in *. cbn [K RS] in *. rewrite Er in EB |- *. cbn [vneg map] in EB |- *. cbn [K RS kopp] in EB |- *.
+  unfold se3_log, se3_q, se3_t. cbn [app vslice skipn firstn]. cbn [K RS].
+  rewrite (so3_log_conj eps x y z w), Hl. change (@vneg RS [a; b; c]) with [- a; - b; - c]. rewrite EB.
+  destruct (mvmul3_shape (so3_ljacinv RS eps [a; b; c]) [tx; ty; tz]) as (p0 & p1 & p2 & Ep).
+  { rewrite (so3_ljacinv_poly eps a b c Hbig). cbv zeta. unfold poly3. mat_unfold. do 9 eexists. reflexivity. }
+  cbn [K RS] in *. rewrite Ep. reflexivity.
 Qed.
 
 Theorem se3_isApprox_sym X Y e : se3_valid X -> se3_valid Y -> 0 < e ->
